@@ -672,3 +672,57 @@ def check_lookup(ctx, r, rid="R6"):
     else:
         r.inst("get_value_at", "%d lookups (2 project layouts x namespace none / right / other / unknown x 3 locales x 14 paths up to 4 segments, inner names repeated at the root): "
                "the value at exactly that path in that locale and namespace, else nothing" % n)
+
+
+# ---------------------------------------------------------------------------------------------- merged plural keys
+PM_ = "leptos_i18n_parser/src/parse_locales/mod.rs"
+PP_ = "leptos_i18n_parser/src/parse_locales/plurals.rs"
+
+
+def check_plural_path(ctx, r, rid="R4"):
+    """A `$t(..)` written inside `key_one` is recorded under the path `..key_one` while parsing; after merge_plurals the value
+    lives at the base key that Locale::is_possible_plural computed.  get_value_at_path (which finds the recorded value again,
+    and whose failure is an `unwrap_at` panic) must ask for exactly that base key: both functions evaluated on the same key
+    spellings, incl. bases that contain `_` or end in `_ordinal` themselves."""
+    ast = ctx.ast
+    g = ast.fn(PM_, "get_value_at_path")
+    ipp = ast.fn(PL_, "is_possible_plural")
+    if g is None or ipp is None:
+        r.missing("get_value_at_path / is_possible_plural")
+        return
+    absint.set_program(ast)
+    funcs = dict(absint.file_funcs(ast, PP_))
+    funcs.update(absint.file_funcs(ast, PL_, "Locale"))
+    names = ["k_one", "k_other", "a_b_many", "k_ordinal_few", "a_b_ordinal_one", "rank_ordinal_ordinal_one", "x_ordinal_ordinal_ordinal_two", "ordinal_one", "ordinal_ordinal_other", "k__zero"]       # (an empty base, `_one`, is rejected by merge_plurals: Key::try_new)
+    n = 0
+    bad = None
+    import re as _re
+    for nm in names:
+        v = AEval(funcs=funcs).run_fn(ipp, [K(nm), C("Literal", A("s"))])
+        if isinstance(v, str):
+            raise Unknown("is_possible_plural on %s: %s" % (nm, v))
+        if not (v[0] == "ctor" and v[1] == "Some"):
+            continue                      # not a plural form: never merged, the recorded path itself is found
+        base = v[2][0][1][0]
+        asked = []
+
+        def gva(rv, a):
+            asked.append(a[1])
+            return C("None") if len(asked) == 1 else C("Some", A("found"))
+        ev = AEval(funcs={}, builtins={"get_value_at": gva})
+        ev.path_builtins = {"Key::new": lambda a: C("Some", CF("Key", name=a[0])) if a[0][0] == "str" and _re.match(r"^[A-Za-z_][A-Za-z0-9_]*$", a[0][1]) else C("None")}
+        kp = CF("KeyPath", namespace=C("None"), path=L(K("grp"), K(nm)))
+        got = ev.run_fn(g, [A("values"), K("en"), kp])
+        if isinstance(got, str):
+            raise Unknown("get_value_at_path on %s: %s" % (nm, got))
+        n += 1
+        want = CF("KeyPath", namespace=C("None"), path=L(K("grp"), CF("Key", name=base)))
+        if not (len(asked) == 2 and asked[0] == kp and asked[1] == want and got == C("Some", A("found"))) and bad is None:
+            bad = "the form key `%s` is merged under `%s`; a reference recorded inside it is looked up at %s (result %s)" % (
+                nm, base[1], [absint.fmt(absint.fields_of(x)["path"]) if x[0] == "ctor" else absint.fmt(x) for x in asked[1:]] or "nothing", absint.fmt(got)[:60])
+    if bad:
+        r.viol("%s:get_value_at_path#merged-key" % rid, bad, file=PM_, line=g.line)
+    elif n < 8:
+        r.viol("%s:get_value_at_path#vacuous" % rid, "only %d of the key spellings are plural forms on this tree" % n, file=PM_, line=g.line)
+    else:
+        r.inst("get_value_at_path (evaluated)", "%d plural form keys (bases with `_`, bases ending in `_ordinal`): the recorded path first, then exactly the key is_possible_plural merges the form under" % n)
